@@ -42,6 +42,31 @@ func c15(c *core.Ctx, r *core.Report) {
 
 	var totalPhi *ssa.Phi
 	pcfEntry := pcf
+	// the plan's field holding the total duration, by role: the Duration-typed field of RunnableStages that has no
+	// namesake among the Limits
+	totalFld := "stagesTotalDuration"
+	if rs, _ := c.Named(fpkg, "RunnableStages").Underlying().(*types.Struct); rs != nil {
+		lim, _ := c.Named(fpkg, "Limits").Underlying().(*types.Struct)
+		var cands []string
+		for i := 0; i < rs.NumFields(); i++ {
+			f := rs.Field(i)
+			if !an.IsNamed(f.Type(), "time", "Duration") {
+				continue
+			}
+			namesake := false
+			for j := 0; lim != nil && j < lim.NumFields(); j++ {
+				if strings.EqualFold(lim.Field(j).Name(), f.Name()) {
+					namesake = true
+				}
+			}
+			if !namesake {
+				cands = append(cands, f.Name())
+			}
+		}
+		if len(cands) == 1 {
+			totalFld = cands[0]
+		}
+	}
 	// the planning loop may live in a helper of ParseConfigFile: R1 looks at the function holding the append of
 	// runnable stages (by role), R4 resolves what ParseConfigFile returns through that helper
 	for _, e := range an.FlatCalls(pcfEntry, flatDepth, func(call ssa.CallInstruction, _ *ssa.Function) bool {
@@ -59,10 +84,6 @@ func c15(c *core.Ctx, r *core.Report) {
 			return isTimeMethod(t, "After") || isTimeMethod(t, "Before")
 		}) {
 			e := e
-			if isTimeMethod(an.Callee(e.Call()), "Before") {
-				r.Violation("ParseConfigFile#test", an.Pos(c, e.Instr), "the skip test uses Before: stages whose scheduled end is still in the future are dropped and finished ones kept")
-				continue
-			}
 			afterEv = &e
 		}
 		if afterEv == nil {
@@ -89,11 +110,20 @@ func c15(c *core.Ctx, r *core.Report) {
 			d := an.D().Of(deref(v))
 			return strings.HasSuffix(d, ".Schedule.StageStart") || strings.HasSuffix(d, ".Schedule.StageStart)")
 		}
-		nowV := deref(after.Call.Args[1])
+		// `end.After(now)` and `now.Before(end)` are the same test
+		endArg, nowArg := after.Call.Args[0], after.Call.Args[1]
+		if isTimeMethod(an.Callee(after), "Before") {
+			endArg, nowArg = nowArg, endArg
+		}
+		nowV := deref(nowArg)
 		nowP, nowIsParam := nowV.(*ssa.Parameter)
 		nowOK := nowIsParam && nowP.Parent() == pcf && an.IsNamed(nowP.Type(), "time", "Time")
-		add, isAdd := an.Strip(after.Call.Args[0]).(*ssa.Call)
+		add, isAdd := an.Strip(endArg).(*ssa.Call)
 		okAdd := isAdd && isTimeMethod(an.Callee(add), "Add") && isStageStart(add.Call.Args[0])
+		if !(nowOK && okAdd) && isTimeMethod(an.Callee(after), "Before") {
+			r.Violation("ParseConfigFile#test", an.Pos(c, after), "the skip test uses Before on the scheduled end: stages whose scheduled end is still in the future are dropped and finished ones kept")
+			return
+		}
 		r.Check(nowOK && okAdd, "ParseConfigFile#test", an.Pos(c, after), "test is stageStart.Add(cumulative).After(now)", "the skip test is "+an.D().Of(after)+", expected stageStart.Add(cumulative).After(now)")
 		if !okAdd {
 			return
@@ -523,7 +553,7 @@ func c15(c *core.Ctx, r *core.Report) {
 				case "Stages":
 					rd := an.D().Of(an.RootFV(pcfEntry, v).Resolve(nil).V)
 					r.Check(strings.HasPrefix(rd, "phi(") || strings.Contains(rd, "append("), key, an.Pos(c, ret), "the kept stages", "Stages is "+shortPath(d))
-				case "stagesTotalDuration":
+				case totalFld:
 					r.Check(totalPhi != nil && an.RootFV(pcfEntry, v).Resolve(nil).V == ssa.Value(totalPhi), key, an.Pos(c, ret), "total duration is the accumulator over all stages", "the total duration reported is "+shortPath(d)+", not the sum over all stages of the file")
 				case "Scenario":
 					r.Check(strings.HasSuffix(d, "#0.Scenario"), key, an.Pos(c, ret), "← "+shortPath(d), "Scenario is fed from "+shortPath(d))
@@ -532,7 +562,7 @@ func c15(c *core.Ctx, r *core.Report) {
 					r.Check(strings.HasSuffix(d, "#0.Limits."+want), key, an.Pos(c, ret), "← "+shortPath(d), "RunnableStages."+f+" is fed from "+shortPath(d)+", expected Limits."+want)
 				}
 			}
-			for _, must := range []string{"Stages", "stagesTotalDuration", "Scenario", "MaxDuration", "Concurrency", "MaxIterations", "maxFailures", "maxFailuresRate", "IgnoreDropped"} {
+			for _, must := range []string{"Stages", totalFld, "Scenario", "MaxDuration", "Concurrency", "MaxIterations", "maxFailures", "maxFailuresRate", "IgnoreDropped"} {
 				if _, ok := lf[must]; !ok {
 					r.Violation("RunnableStages."+must, an.Pos(c, ret), "RunnableStages.%s is never set", must)
 				}
@@ -556,7 +586,7 @@ func c15(c *core.Ctx, r *core.Report) {
 				lf := an.LiteralFields(lit)
 				if v, ok := lf["Duration"]; ok {
 					d := an.D().Of(v)
-					r.Check(strings.HasSuffix(d, "#0.stagesTotalDuration") || fromPlanField(v, "stagesTotalDuration"), "file.Trigger.Duration", an.Pos(c, ret), "Trigger.Duration ← "+shortPath(d), "the file trigger's Duration is "+shortPath(d)+", not the plan's total duration")
+					r.Check(strings.HasSuffix(d, "#0."+totalFld) || fromPlanField(v, totalFld), "file.Trigger.Duration", an.Pos(c, ret), "Trigger.Duration ← "+shortPath(d), "the file trigger's Duration is "+shortPath(d)+", not the plan's total duration")
 				} else {
 					r.Violation("file.Trigger.Duration", an.Pos(c, ret), "the file trigger does not report its total duration")
 				}
